@@ -634,6 +634,18 @@ func ruleDropKeep(r *Run) {
 						return true
 					}
 				}
+				// a sub-object of the stage (a selector struct it holds) is the predicate's receiver
+				root := a
+				for d := 0; d < 4; d++ {
+					fa, ok := root.(*ssa.FieldAddr)
+					if !ok {
+						break
+					}
+					root = fa.X
+				}
+				if root != a && (originValue(root) == ssa.Value(fn.Params[0]) || originValue(root) == originValue(ssa.Value(fn.Params[0]))) {
+					return true
+				}
 			}
 			return false
 		}
